@@ -307,3 +307,209 @@ pub fn judge(cfg: &Cfg, obs: &[Obs]) -> Report {
     rep.nontrivial = flips >= 2 && (timeouts >= 1 || cfg.huge_timeout);
     rep
 }
+
+// ---------------------------------------------------------------------------------------
+// overrun engine: the check timeout is longer than the interval and some checks take longer than
+// the interval, so rounds overrun and ticks are missed. Judged by check *count*, not by time: at
+// every quiescent sample (no check of that resource in progress) the published status must be the
+// thresholds machine's status after the checks finished so far.
+// ---------------------------------------------------------------------------------------
+
+const O_INTERVAL_US: u64 = 5_000;
+const O_TIMEOUT_US: u64 = 12_000;
+
+/// latency in us and result of script code c: 0 healthy fast, 1 degraded, 2 unhealthy, 3 unknown,
+/// 4 slower than the timeout, 5 healthy but slower than the interval, 6 unhealthy slower than the interval
+fn o_code(c: u8) -> (u64, u8) {
+    match c {
+        0 => (1000, 0),
+        1 => (0, 1),
+        2 => (2000, 2),
+        3 => (0, 3),
+        4 => (O_TIMEOUT_US + 3000, 0),
+        5 => (8000, 0),
+        _ => (9000, 2),
+    }
+}
+
+pub fn scenario_overrun(sseed: u64, _tier: Tier) -> Report {
+    let mut rng = Prng::new(sseed);
+    let n = rng.range(1, 3) as usize;
+    let (fail_thr, succ_thr) = (rng.range(1, 3) as u32, rng.range(1, 3) as u32);
+    let len = 120usize;
+    let mut script: Script = vec![];
+    for _ in 0..n {
+        let mut mood = rng.below(7) as u8;
+        let mut v = vec![];
+        for _ in 0..len {
+            if rng.chance(0.3) {
+                mood = *rng.pick(&[0u8, 0, 5, 5, 5, 2, 6, 4, 1, 3]);
+            }
+            v.push(mood);
+        }
+        script.push(v);
+    }
+    let duration_us = 400_000u64;
+    struct Shared {
+        started: Vec<usize>,
+        finished: Vec<usize>,
+        in_progress: Vec<bool>,
+    }
+    let sh = Arc::new(Mutex::new(Shared { started: vec![0; n], finished: vec![0; n], in_progress: vec![false; n] }));
+    // (t, resource, finished checks, published status)
+    let samples = Arc::new(Mutex::new(Vec::<(u64, usize, usize, u8)>::new()));
+    let (sh2, samples2, script2) = (sh.clone(), samples.clone(), Arc::new(script.clone()));
+    let (w, _stats, ()) = run_sim(rng.next(), |sim| {
+        let w = sim.w.clone();
+        let sh = sh2.clone();
+        let script = script2.clone();
+        struct Guard(Arc<Mutex<Shared>>, usize);
+        impl Drop for Guard {
+            fn drop(&mut self) {
+                let mut s = lock(&self.0);
+                s.in_progress[self.1] = false;
+                s.finished[self.1] += 1;
+            }
+        }
+        let checker = move |r: &usize| {
+            let r = *r;
+            let k = {
+                let mut s = lock(&sh);
+                let k = s.started[r];
+                s.started[r] += 1;
+                s.in_progress[r] = true;
+                k
+            };
+            let g = Guard(sh.clone(), r);
+            let (lat, res) = o_code(script[r].get(k).copied().unwrap_or(3));
+            async move {
+                let _g = g;
+                if lat > 0 {
+                    tokio::time::sleep(Duration::from_micros(lat)).await;
+                }
+                match res {
+                    0 => HealthStatus::Healthy,
+                    1 => HealthStatus::Degraded,
+                    2 => HealthStatus::Unhealthy,
+                    _ => HealthStatus::Unknown,
+                }
+            }
+        };
+        let mut b = HealthCheckWrapper::builder()
+            .with_checker(checker)
+            .with_interval(Duration::from_micros(O_INTERVAL_US))
+            .with_initial_delay(Duration::from_micros(INITIAL_US))
+            .with_timeout(Duration::from_micros(O_TIMEOUT_US))
+            .with_failure_threshold(fail_thr)
+            .with_success_threshold(succ_thr);
+        for i in 0..n {
+            b = b.with_context(i, format!("res{i}"));
+        }
+        let wrapper = b.build();
+        let (sh3, samples3, w2) = (sh2.clone(), samples2.clone(), w.clone());
+        let a = sim.actor(0, move || {
+            boxed(async move {
+                wrapper.start().await;
+                // sample at x.5 ms: every library event happens at a whole millisecond
+                let mut t = 500u64;
+                while t < duration_us {
+                    tokio::time::sleep_until(w2.t0() + Duration::from_micros(t)).await;
+                    for i in 0..n {
+                        let status = wrapper.get_status(&format!("res{i}")).await.map(st).unwrap_or(9);
+                        let s = lock(&sh3);
+                        if !s.in_progress[i] {
+                            lock(&samples3).push((t, i, s.finished[i], status));
+                        }
+                    }
+                    t += 1000;
+                }
+                wrapper.stop().await;
+                w2.note("driver-done");
+            })
+        });
+        sim.start_at(0, a);
+        sim.horizon = duration_us + 50_000;
+        sim.p_spurious = 0.0;
+        sim.poll_cap = 5_000_000;
+    });
+    let mut rep = Report::default();
+    let log = w.take_log();
+    for r in &log {
+        if let Ev::ActorPanic { msg, .. } = &r.ev {
+            rep.violate("C18:library-panic", msg.clone());
+        }
+    }
+    // reference machine: status after k finished checks
+    let mut model: Vec<Vec<u8>> = vec![];
+    for r in 0..n {
+        let (mut status, mut f, mut s) = (3u8, 0u32, 0u32);
+        let mut v = vec![status];
+        for k in 0..len {
+            let (lat, res) = o_code(script[r][k]);
+            let res = if lat > O_TIMEOUT_US { 2 } else { res };
+            match res {
+                0 => {
+                    s += 1;
+                    f = 0;
+                    if s >= succ_thr {
+                        status = 0;
+                    }
+                }
+                1 => {
+                    s += 1;
+                    f = 0;
+                    status = 1;
+                }
+                2 => {
+                    f += 1;
+                    s = 0;
+                    if f >= fail_thr {
+                        status = 2;
+                    }
+                }
+                _ => {}
+            }
+            v.push(status);
+        }
+        model.push(v);
+    }
+    let samples = lock(&samples).clone();
+    let mut distinct = std::collections::HashSet::new();
+    let mut flips = 0u64;
+    for (t, r, k, status) in &samples {
+        let expected = model[*r].get(*k).copied().unwrap_or(3);
+        if distinct.insert((*r, *k)) && *k > 0 && model[*r][*k] != model[*r][*k - 1] {
+            flips += 1;
+        }
+        if *status != expected {
+            let hist: Vec<u8> = script[*r][..(*k).min(len)].iter().rev().take(10).rev().cloned().collect();
+            rep.violate(
+                format!("C18:overrun:expected-{}-published-{}", NAMES[expected as usize], NAMES.get(*status as usize).unwrap_or(&"?")),
+                format!(
+                    "res{r} at t={t}us after {k} finished checks: published {} but the thresholds (failure {fail_thr}, success {succ_thr}) give {}; interval {O_INTERVAL_US}us, timeout {O_TIMEOUT_US}us; last results (0 healthy 1ms, 1 degraded, 2 unhealthy, 3 unknown, 4 slower than the timeout, 5 healthy after 8ms, 6 unhealthy after 9ms): {hist:?}",
+                    NAMES.get(*status as usize).unwrap_or(&"?"),
+                    NAMES[expected as usize]
+                ),
+            );
+            break;
+        }
+    }
+    let finished: Vec<usize> = lock(&sh).finished.clone();
+    let overran = script.iter().zip(finished.iter()).any(|(s, f)| s[..(*f).min(len)].iter().any(|c| *c >= 4));
+    if !log.iter().any(|r| matches!(&r.ev, Ev::Note { what } if what == "driver-done")) && rep.violations.is_empty() {
+        rep.inconclusive = Some("overrun driver did not finish".into());
+    }
+    rep.count("overrun_samples", samples.len() as u64);
+    rep.count("overrun_checks_finished", finished.iter().sum::<usize>() as u64);
+    rep.count("overrun_status_flips", flips);
+    rep.bucket(format!("overrun n={n} fail={fail_thr} succ={succ_thr}"));
+    rep.nontrivial = overran && flips >= 2;
+    let mut s = Fnv::default();
+    for (_, r, k, st) in &samples {
+        s.add((*r * 1000 + *k) as u64 * 10 + *st as u64);
+    }
+    rep.sig = s.0;
+    rep.case = json!({"engine": "overrun", "n": n, "failure_threshold": fail_thr, "success_threshold": succ_thr, "interval_us": O_INTERVAL_US, "timeout_us": O_TIMEOUT_US,
+        "script_head": script.iter().map(|v| v.iter().take(30).cloned().collect::<Vec<u8>>()).collect::<Vec<_>>(), "checks_finished": finished, "samples": samples.len()});
+    rep
+}
